@@ -145,6 +145,34 @@ def campaign(c):
         one(c, src, 'gen')
         for k, v in g.stats.items():
             if k.startswith('call:'): c.count(k, v)
+    # several inputs with explicit output names (-o, paired with the inputs in the order given), inputs listed in ascending,
+    # descending and mixed order of their names: every named file holds the packets of ITS program
+    import os, subprocess, tempfile, shutil, itertools
+    d = tempfile.mkdtemp(prefix='rsout')
+    try:
+        progsrc = {'web': b'import ipv4;\nlet f = ipv4::tcp::flow(1.2.3.4:5, 6.7.8.9:80);\nf.open();\nf.client_message("GET");\n',
+                   'lookup': b'import dns;\ndns::host(1.2.3.4, "a.example", 10.0.0.1);\n', 'a': b'import eth;\neth::frame("|000000000001|", "|000000000002|", "one");\n',
+                   'zz': b'import ipv4;\nlet i = ipv4::icmp::flow(1.2.3.4, 6.7.8.9);\ni.echo("x");\ni.echo("y");\ni.echo_reply("z");\n'}
+        alone = {}
+        for nme, sb in progsrc.items():
+            open(os.path.join(d, nme + '.rsyn'), 'wb').write(sb)
+            alone[nme] = core.run_cli(sb)['pcap']
+        for order in list(itertools.permutations(sorted(progsrc), 2)) + [('web', 'lookup', 'a', 'zz'), ('zz', 'web', 'a', 'lookup'), ('lookup', 'zz', 'web', 'a')]:
+            argv = [core.CLI]
+            for nme in order: argv += ['-o', os.path.join(d, 'out-' + nme + '.pcap')]
+            argv += [os.path.join(d, nme + '.rsyn') for nme in order]
+            pr = subprocess.run(argv, capture_output=True, cwd=d, timeout=120)
+            for nme in order:
+                f = os.path.join(d, 'out-' + nme + '.pcap')
+                got = open(f, 'rb').read() if os.path.exists(f) else None
+                if pr.returncode != 0 or got != alone[nme]:
+                    c.violation('pcap-output-pairing', 'inputs %s with one -o each: the file named for %s does not hold the packets of %s.rsyn (exit %d, %s bytes vs %d)' % (list(order), nme, nme, pr.returncode, len(got) if got is not None else None, len(alone[nme])),
+                                dict(order=list(order), out=pr.stdout.decode('utf-8', 'replace').replace(d, '<T>')[-300:]))
+                    break
+                if os.path.exists(f): os.remove(f)
+            c.case(('output-pairing', order), dict(kind='output-pairing', order=list(order)) if len(order) > 2 else None)
+    finally:
+        shutil.rmtree(d, ignore_errors=True)
     c.assumptions += ['the pcap reader Spec.parsePcap is the reference for well-formedness',
                       'snap-length word of the global header is not constrained by the property']
 
